@@ -435,6 +435,125 @@ class C05(ProgCheck):
                         if pat[i] in BI_STORED and pat[j] not in BI_STORED:
                             key = "%d:stored,%d:temp" % (i, j)
                             bs["stored_temp_pairs"][key] = bs["stored_temp_pairs"].get(key, 0) + 1
+        # (8) EVERY operator x operand sources at STORAGE level (C05R4): `r = a <op> b;` parsed ONCE and run three times, so that the constant
+        # nodes of the statement are re-read; each of (variable / table element / tuple item / constant, temporary) in both orders, plus
+        # (var, var), (cst, cst), (temporary, temporary); model: `binPlace` / `unPlace` + LVAL1 / LVAL2 of Model/Store.lean through `evalX`.
+        ARITH = ("ADD", "SUB", "MUL", "DIV", "MOD", "EXP")
+        op_pairs = [(o, tp) for o in ARITH for tp in ("ii", "dd", "id", "di")] + [("ADD", "ss"), ("ADD", "sn"), ("ADD", "ns")]
+        op_pairs += [(o, "ii") for o in ("AND", "IOR", "XOR", "POP", "PUS")]
+        op_pairs += [(o, tp) for o in ("EQ", "NE", "LT", "LE", "GT", "GE") for tp in ("ii", "dd", "ss", "id")] + [("EQ", "bb"), ("NE", "bb")]
+        op_pairs += [(o, tp) for o in ("BAND", "BIOR", "BXOR") for tp in ("bb", "fb")]        # f = boolean false (short circuit of `and`)
+        OPV = dict(BI_VALUES)
+        OPV.update({"f": ["B:0", "B:0"], "n": ["N:?0", "N:?0"]})
+        NEUTRAL["f"] = NEUTRAL["b"]
+
+        def op_src(t, k, how):
+            if t == "n":        # the untyped null: variable, literal, function result
+                return {"var": V("A%d" % k), "cst": NUL, "idf": IDFX(V("A%d" % k))}.get(how)
+            v = L(OPV[t][k])
+            return {"var": V("A%d" % k), "elem": M("at", V("T%d" % k), I(1)), "item": ("item", V("U%d" % k), 1), "cst": v,
+                    "op": ("bin", NEUTRAL[t][0], V("A%d" % k), NEUTRAL[t][1]), "idf": IDFX(V("A%d" % k))}[how]
+
+        def op_setup(sig):
+            st = []
+            for k, t in enumerate(sig):
+                init = L(OPV[t][k])
+                st.append(("let", "A%d" % k, init))
+                if t != "n":
+                    st.append(("let", "T%d" % k, ("call", "tab", [I(2), init])))
+                    st.append(("let", "U%d" % k, ("call", "tup", [init, I(0)])))
+            return st
+
+        OP_PATS = [(a, b) for a in BI_STORED for b in ("op", "idf")] + [(b, a) for a in BI_STORED for b in ("op", "idf")] + [
+            ("var", "var"), ("cst", "cst"), ("op", "idf")]
+        osr = self.xstats.setdefault("operator_arg_sources", {"cases": 0, "operators": {}, "patterns": {}})
+        for opn, tp in op_pairs:
+            for pat in OP_PATS:
+                a, b = op_src(tp[0], 0, pat[0]), op_src(tp[1], 1, pat[1])
+                if a is None or b is None:
+                    continue
+                n += 1
+                cases.append(self.xcase("x%d" % n, funcs, [(0, op_setup(tp)), (1, [("let", "R", ("bin", opn, a, b))])], [0, 1, 1, 1],
+                                        {"family": "operator_arg_sources", "operator": opn, "pattern": "/".join(pat)}))
+                osr["cases"] += 1
+                osr["operators"][opn] = osr["operators"].get(opn, 0) + 1
+                cls = "".join("S" if h in BI_STORED else "T" for h in pat)
+                osr["patterns"][cls] = osr["patterns"].get(cls, 0) + 1
+        for opn, tps in (("NEG", "idn"), ("POS", "idsn"), ("NOT", "in"), ("BNOT", "bfn")):
+            for t in tps:
+                for how in BI_SOURCES:
+                    a = op_src(t, 0, how)
+                    if a is None:
+                        continue
+                    n += 1
+                    cases.append(self.xcase("x%d" % n, funcs, [(0, op_setup(t)), (1, [("let", "R", ("un", opn, a))])], [0, 1, 1, 1],
+                                            {"family": "operator_arg_sources", "operator": opn, "pattern": how}))
+                    osr["cases"] += 1
+                    osr["operators"][opn] = osr["operators"].get(opn, 0) + 1
+        # (9) the LVALUE flag of the RESULT cell (probe op `exprf`, driver item `(flag e)`): `thru` (the first argument's cell handed through)
+        # and `l1` / `l2` / `fresh` placements differ only there. One case per signature: the setup, then every source pattern as a freshly
+        # parsed expression; value and flag of the result compared with the model (`getX` of the location `evalX` returns).
+        rfs = self.xstats.setdefault("result_flag", {"cases": 0, "expressions": 0})
+
+        def xfcase(setup_st, exprs, meta):
+            nonlocal n
+            n += 1
+            fsrc = "".join("function %s(%s) return undefined is begin %s end;\n" % (
+                nm.lower(), ", ".join(q.lower() for q in ps), " ".join(xstmt_src(st) for st in body)) for nm, ps, body in funcs)
+            sx = ["(func %s (%s) %s)" % (nm, " ".join(ps), " ".join(xstmt_sexp(st) for st in body)) for nm, ps, body in funcs]
+            sx.append("(def 0 %s)" % " ".join(xstmt_sexp(st) for st in setup_st))
+            sx.append("(run 0)")
+            ops = ["new 0", "prog 0 " + hx(fsrc), "parse 0 0 " + hx(" ".join(xstmt_src(st) for st in setup_st)), "run 0 0"]
+            for e in exprs:
+                ops.append("exprf 0 " + hx(xsrc(e) + ";"))
+                sx.append("(flag %s)" % xsexp(e))
+            m = dict(meta)
+            m.update({"xf": True, "exprs": [xsrc(e) for e in exprs]})
+            fam = self.xstats["families"]
+            fam["result_flag"] = fam.get("result_flag", 0) + 1
+            rfs["cases"] += 1
+            rfs["expressions"] += len(exprs)
+            cases.append(Case("x%d" % n, "c05x 200 " + hx(" ".join(sx)), "|".join(ops), m))
+
+        for name, sgs in BI_SIGS.items():
+            for sig in sgs:
+                pats = itertools.product(BI_SOURCES, repeat=len(sig)) if len(sig) == 2 else itertools.product(("var", "cst", "op", "elem"), repeat=3)
+                exprs = []
+                for pat in pats:
+                    args = [arg_src(t, k, how) for k, (t, how) in enumerate(zip(sig, pat))]
+                    if all(a is not None for a in args):
+                        exprs.append(("call", name, args))
+                xfcase(bi_setup(sig), exprs, {"family": "result_flag", "what": "%s/%s" % (name, sig)})
+        for opn, tp in op_pairs:
+            exprs = []
+            for pat in itertools.product(BI_SOURCES, repeat=2):
+                a, b = op_src(tp[0], 0, pat[0]), op_src(tp[1], 1, pat[1])
+                if a is not None and b is not None:
+                    exprs.append(("bin", opn, a, b))
+            xfcase(op_setup(tp), exprs, {"family": "result_flag", "what": "%s/%s" % (opn, tp)})
+        for opn, tps in (("NEG", "idn"), ("POS", "idsn"), ("NOT", "in"), ("BNOT", "bfn")):
+            for t in tps:
+                xfcase(op_setup(t), [("un", opn, a) for a in (op_src(t, 0, h) for h in BI_SOURCES) if a is not None], {"family": "result_flag", "what": "%s/%s" % (opn, t)})
+        # the hand-through (`return val;`) and `fresh` branches, with the first argument stored and temporary
+        tsetup = [("let", "S", S("hay,stack")), ("let", "E", S("")), ("let", "NS", L("N:s0")), ("let", "NI", L("N:i0")), ("let", "ND", L("N:d0")),
+                  ("let", "B", ("call", "raw", [S("ab")])), ("let", "I1", I(2)), ("let", "D1", L("D:4004000000000000")), ("let", "NN", NUL)]
+        C = lambda nm, *a: ("call", nm, list(a))
+        thru = []
+        for w in (lambda x: x, IDFX):
+            s_, e_, ns, ni, nd, b_, d1 = (w(V(q)) for q in ("S", "E", "NS", "NI", "ND", "B", "D1"))
+            thru += [C("replace", s_, V("NN"), S("x")), C("replace", s_, V("NS"), S("x")), C("replace", ns, S("a"), S("b")), C("replace", s_, S(""), S("x")),
+                     C("replace", s_, S(","), S(";")), C("clamp", nd, L("D:3ff0000000000000"), L("D:4000000000000000")),
+                     C("clamp", d1, V("ND"), L("D:4000000000000000")), C("clamp", d1, L("D:3ff0000000000000"), V("ND")),
+                     C("clamp", d1, L("D:3ff0000000000000"), L("D:4000000000000000")), C("round", nd, I(1)), C("round", d1, I(1)), C("round", d1, V("NI")),
+                     C("raw", b_), C("raw", s_), C("raw", V("I1"), I(65)), C("substr", s_, V("NI")), C("substr", s_, V("NN")), C("substr", e_, I(0)),
+                     C("substr", ns, I(0)), C("substr", s_, I(1)), C("substr", s_, I(0), V("NI")), C("substr", s_, I(1), I(3)), C("lsubstr", s_, V("NI")),
+                     C("lsubstr", e_, I(1)), C("lsubstr", s_, I(2)), C("rsubstr", s_, V("NI")), C("rsubstr", e_, I(1)), C("rsubstr", s_, I(2)),
+                     C("subraw", b_, V("NI")), C("subraw", b_, I(1)), C("subraw", b_, I(0), V("NI")), C("hex", ni, I(2)), C("hex", V("I1"), V("NI")),
+                     C("hex", V("I1"), I(4)), C("strpos", s_, S(","), V("NN")), C("strpos", s_, S(","), I(1)), C("strpos", ns, S(",")),
+                     C("tokenize", ns, S(",")), C("tokenize", s_, S(",")), C("hash", ns, I(4)), C("hash", s_, I(4)),
+                     C("atan2", nd, d1), C("max", nd, d1), C("min", d1, nd), C("mod", nd, d1), C("pow", d1, nd)]
+        for k in range(0, len(thru), 12):
+            xfcase(tsetup, thru[k:k + 12], {"family": "result_flag", "what": "hand-through"})
         # (5) a held element reference whose variable is changed by a later operand (dangling): model = hazard oob
         for e in [M("put", M("at", V("TT"), I(0)), I(0), M("count", M("concat", M("concat", V("TT"), V("TT")), V("TT")))),
                   ("bin", "ADD", M("at", M("at", V("TT"), I(1)), I(0)), M("count", M("concat", M("concat", M("concat", V("TT"), V("TT")), V("TT")), V("TT")))),
@@ -663,7 +782,56 @@ class C05(ProgCheck):
         self.stats["storage_model"] = self.xstats
         return cases
 
+    def judge_xf(self, c, iraw, m, stderr):
+        """result-flag cases: value and LVALUE flag of the cell each expression returns, library (exprf) against storage model (flag)"""
+        mout = m.get("model")
+        self.distinct.add(c.model_line)
+        if mout is None or mout == "bad-script":
+            return self.record_violation("storage model gave no answer", c, iraw[:100], m)
+        if iraw.startswith("crash") or iraw.endswith("diverges"):
+            self.tally(c, iraw, m)
+            return self.record_violation("crash while evaluating one of %s" % c.meta["exprs"][:3], c, iraw, m, stderr)
+        steps = mout.split("|")
+        parts = iraw.split("|")
+        ex = c.meta["exprs"]
+        res = parts[len(parts) - len(ex):]
+        pro = parts[:len(parts) - len(ex)]
+        rf = self.xstats["result_flag"]
+        if any(not q.startswith("ok") for q in pro) or not steps[0].startswith("ok"):
+            rf["setup_failed"] = rf.get("setup_failed", 0) + 1
+            if [q.startswith("ok") for q in pro[-1:]] != [steps[0].startswith("ok")]:
+                return self.record_violation("setup of a result-flag case: implementation %s, model %s" % (pro[-1:], steps[0][:40]), c, str(pro), m)
+            return
+        self.tally(c, res[-1] if res else "?", m)
+        for k, (src, ir) in enumerate(zip(ex, res)):
+            ms = steps[1 + k] if 1 + k < len(steps) else "stop"
+            if ms == "stop":
+                return
+            if ir.startswith("perr"):
+                rf["rejected_by_parser"] = rf.get("rejected_by_parser", 0) + 1
+                if not ms.startswith("ok"):
+                    return        # the model has no parse-time typing: it raised at run time and holds no state any more
+                continue
+            mo, _, mv = ms.partition("#")
+            if mo in ("unmodelled", "oof"):
+                self.xstats["model_unmodelled"] += 1
+                return
+            io = "ok" if ir.startswith("ok") else "rerr+" + ir.split()[1] if ir.startswith("rerr") else ir
+            if io != mo:
+                return self.record_violation("`%s`: the implementation gives %s, the storage model %s" % (src, ir, ms), c, ir, m)
+            if mo != "ok":
+                return
+            iv = ir[3:]
+            rf["compared"] = rf.get("compared", 0) + 1
+            key = "lvalue" if iv.endswith("/l") else "temporary"
+            rf[key] = rf.get(key, 0) + 1
+            if iv != mv:
+                what = "flag" if iv[:-2] == mv[:-2] else "value"
+                return self.record_violation("`%s`: the result cell is %s in the implementation, %s in the storage model (%s differs)" % (src, iv, mv, what), c, iv, m)
+
     def judge(self, c, iraw, m, stderr):
+        if c.meta.get("xf"):
+            return self.judge_xf(c, iraw, m, stderr)
         if c.meta.get("x"):
             return self.judge_x(c, iraw, m, stderr)
         if c.meta.get("pt"):
